@@ -66,6 +66,64 @@ class Cluster:
             self.live[k] = False
 
 
+class TcpCluster:
+    """Same interface as Cluster, but the instances replicate through their REAL BoboDistributedTCP (sim_net.Net:
+    real _tcp_outgoing / _tcp_incoming_handle_client / _update, AES, fake sockets and clock).  After every input the
+    protocol is pumped until nothing is queued and nothing new goes over the wire; a crashed instance stops and
+    every link to it is down (connect refused), so the survivors stash for it and carry on."""
+
+    def __init__(self, ed, n, periods=(30, 60, 5, 5, 10)):
+        import sim_net
+        self.n = n
+        self.net = sim_net.Net(ed, n, periods=periods)
+        self.live = [True] * n
+        self.settled = self.pump()
+
+    @property
+    def nodes(self):
+        return [(nd.engine, nd.handler, nd.log) for nd in self.net.nodes]
+
+    def pump(self, cap=12):
+        net = self.net
+        for _ in range(cap):
+            w0 = sum(1 for m in net.wire if m.get("kind") == "msg")
+            for k in range(self.n):
+                if self.live[k]:
+                    net.out_iter(k)
+            for k in range(self.n):
+                if self.live[k]:
+                    net.main_update(k)
+            w1 = sum(1 for m in net.wire if m.get("kind") == "msg")
+            if w1 == w0 and all(not net.queue_notes(k) and net.nodes[k].dist._queue_incoming.empty()
+                                for k in range(self.n) if self.live[k]):
+                return True
+        return False
+
+    def input(self, k, d):
+        self.net.advance(1)
+        self.net.input(k, d)
+        return self.pump()
+
+    def crash(self, ks):
+        for k in ks:
+            self.live[k] = False
+            for i in range(self.n):
+                self.net.set_link(i, k, "down")
+
+    # link faults (instances stay up): "down" = connect refused, "fail" = bytes delivered, then the sender gets an error
+    def link(self, i, j, state):
+        self.net.set_link(i, j, state)
+
+    def heal(self):
+        dead = [k for k in range(self.n) if not self.live[k]]
+        self.net.heal()
+        self.crash(dead)
+
+    def wait(self, seconds):
+        self.net.advance(seconds)
+        return self.pump()
+
+
 def ev_content(e):
     k = PL.kind_of(e)
     if k == 1:
